@@ -927,6 +927,10 @@ impl<T: TS, const N: usize> TS for [T; N] {
     where
         Self: 'static,
     {
+        // `[T; 0]` is the empty tuple `[]`: it mentions no type
+        if N == 0 {
+            return;
+        }
         <T as crate::TS>::visit_dependencies(v);
     }
 
@@ -934,6 +938,9 @@ impl<T: TS, const N: usize> TS for [T; N] {
     where
         Self: 'static,
     {
+        if N == 0 {
+            return;
+        }
         <T as crate::TS>::visit_generics(v);
         v.visit::<T>();
     }
